@@ -626,7 +626,15 @@ impl Eraser {
         collect_from_postorder(&last, &mut use_order);
         let suffix = format!("#{seq_id}");
         let use_order: Vec<String> = use_order.iter().filter_map(|n| n.strip_suffix(&suffix).map(|s| s.to_string())).collect();
-        let assigned_checked: Vec<&String> = assigned.iter().filter(|n| !is_static_path(&self.env[*n].raw)).collect();
+        // exempt: static prototype / fresh-literal paths (tolerated by the statement) and temporaries that merely hold a
+        // plain identifier, `this` or a literal (moving such a read is not observable)
+        let assigned_checked: Vec<&String> = assigned
+            .iter()
+            .filter(|n| {
+                let raw = &self.env[*n].raw;
+                !is_static_path(raw) && !(matches!(ty(raw), "Identifier" | "ThisExpression") && !self.is_temp(ident_name(raw).unwrap_or(""))) && !is_lit_node(raw)
+            })
+            .collect();
         let used: Vec<&String> = use_order.iter().filter(|n| assigned_checked.contains(n)).collect();
         let mut dedup: Vec<&String> = vec![];
         for u in used {
@@ -635,6 +643,25 @@ impl Eraser {
             }
         }
         if dedup != assigned_checked {
+            // explained by an identifier-only member path (`a.b.m.call(thisArg, ..)`, not a `.prototype` path) read after `thisArg`?
+            let is_ident_path = |v: &Value| -> bool {
+                fn ok(v: &Value) -> bool {
+                    match ty(v) {
+                        "Identifier" | "ThisExpression" => true,
+                        "MemberExpression" => v["optional"] != json!(true) && ident_name(&v["property"]).is_some() && ok(&v["object"]),
+                        _ => false,
+                    }
+                }
+                ty(v) == "MemberExpression" && ok(v)
+            };
+            let without_paths: Vec<&String> = assigned_checked.iter().copied().filter(|n| !is_ident_path(&self.env[*n].raw)).collect();
+            let dedup_without: Vec<&String> = dedup.iter().copied().filter(|n| !is_ident_path(&self.env[*n].raw)).collect();
+            if without_paths == dedup_without {
+                return err(
+                    "evaluation-order:member-path-after-this",
+                    format!("the member path of `<path>.call/apply(thisArg, ..)` is read after thisArg has been evaluated (assigned {:?}, used {:?})", assigned_checked, dedup),
+                );
+            }
             return err(
                 "evaluation-order",
                 format!("temporaries are assigned in the order {:?} but used in the order {:?} in {}", assigned_checked, dedup, strip_meta(&last).to_string().chars().take(700).collect::<String>()),
